@@ -536,7 +536,7 @@ func (e *env) runSocket(c *Case) ([]F, map[string]interface{}) {
 	if c.PanicIn == "makectx" {
 		var calls int32
 		opts = append(opts, graphql.WithMakeCtx(func(ctx context.Context) context.Context {
-			if atomic.AddInt32(&calls, 1) >= 2 {
+			if atomic.AddInt32(&calls, 1) == 2 { // the first computation of the second request only: the others must go on
 				panic("makeCtx panics")
 			}
 			return ctx
